@@ -3,6 +3,7 @@
 package main
 
 import (
+	"encoding/json"
 	"fmt"
 	"go/ast"
 	"go/parser"
@@ -268,6 +269,44 @@ func main() {
 	}
 	fmt.Fprintf(&w, "Definition wiring_unsupported : list str := %s.\n", coqList(us))
 	writeIfChanged(filepath.Join(out, "Wiring.v"), w.String())
+
+	// G4 / G5: handler programs (AST) and read/write sets (SSA, computed by gossa and handed over as JSON)
+	ssaSetsByRoot := map[string]ssaSets{}
+	ssaNote := "no SSA read/write sets were supplied"
+	if len(os.Args) > 3 {
+		if data, err := os.ReadFile(os.Args[3]); err == nil {
+			if err := json.Unmarshal(data, &ssaSetsByRoot); err == nil {
+				ssaNote = ""
+			} else {
+				ssaNote = "SSA read/write sets unreadable: " + err.Error()
+			}
+		}
+	}
+	unsupported = nil
+	var h strings.Builder
+	h.WriteString("(* GENERATED by go/cmd/translate (handler programs, from the syntax tree) and gossa (read/write sets, from the SSA form) - do not edit. *)\n")
+	h.WriteString("From Coq Require Import List Strings.Byte.\nFrom IGP Require Import Base.Str Model.Handlers.\nImport ListNotations.\n\n")
+	genHandlers(&h, ssaSetsByRoot)
+	if ssaNote != "" {
+		unsup("%s", ssaNote)
+	}
+	for k, v := range ssaSetsByRoot {
+		if v.Error != "" {
+			unsup("gossa %s: %s", k, v.Error)
+		}
+	}
+	sort.Strings(unsupported)
+	us = nil
+	for _, u := range unsupported {
+		us = append(us, coqStr(u))
+	}
+	fmt.Fprintf(&h, "Definition handlers_unsupported : list str := %s.\n", coqList(us))
+	var dyn []string
+	for _, d := range ssaSetsByRoot["handler"].Dynamic {
+		dyn = append(dyn, coqStr(d))
+	}
+	fmt.Fprintf(&h, "Definition dynamic_call_sites : list str := %s.\n", coqList(dyn))
+	writeIfChanged(filepath.Join(out, "Handlers.v"), h.String())
 }
 
 func writeIfChanged(path, content string) {
